@@ -19,7 +19,7 @@ from .converters import Converter, make_converter
 from .errors import ConvertError, ParseInterrupt, ErrorNode
 from .errors import WrongTypeError, WrongLenError, ProductErrorNode, DuplicateKeyError
 from .field import Field, FieldSpec, field, RenameStyle, rename_field, _MISSING
-from .util import get_type_hints, list_phrase, KW_ONLY
+from .util import get_type_hints, list_phrase, collect_typevars, KW_ONLY
 from . import io
 
 
@@ -443,7 +443,9 @@ def _make_subclass(cls: t.Any, key: _ParamsKey) -> type:
     return type(cls.__name__, (cls,), {
         PANE_BOUNDVARS: bound_vars,
         '__origin__': cls,
-        '__parameters__': getattr(alias, '__parameters__'),
+        # not `alias.__parameters__`: typing memoises the alias by set-like equality of unions, so the alias
+        # (and the order of its free type variables) may be the one made for an earlier, reordered spelling
+        '__parameters__': collect_typevars(params),
     })
 
 
